@@ -138,7 +138,7 @@ _src = {}
 def src_text(path):
     if path not in _src:
         with open(path, 'rb') as fh:
-            _src[path] = fh.read().decode('utf-8', 'replace')
+            _src[path] = fh.read().decode('latin-1')
     return _src[path]
 
 
@@ -151,7 +151,7 @@ def strip_ns(t):
 
 def cname(t):
     """identifier-safe mangling of a type spelling"""
-    t = ctype(t)
+    t = _ctype(t)
     t = t.replace('struct ', '').replace('const ', '').replace('*', ' p').replace('&', ' r')
     t = re.sub(r'[^A-Za-z0-9_]+', '_', t.strip())
     return t.strip('_')
@@ -166,8 +166,21 @@ def canon_elem(t):
     return ELEM_ALIAS.get(t, t)
 
 
+TYPE_NAMES = set()
+BUILTIN_TYPE_WORDS = set('void char short int long unsigned signed float double const volatile struct bool _Bool size_t ssize_t uint uchar ushort ulong '
+                         'uint8_t uint16_t uint32_t uint64_t int8_t int16_t int32_t int64_t ptrdiff_t restrict'.split())
+
+
 def ctype(t):
     """C spelling of a C++ type spelling (subset)"""
+    r = _ctype(t)
+    for w in re.findall(r'[A-Za-z_]\w*', r):
+        if w not in BUILTIN_TYPE_WORDS:
+            TYPE_NAMES.add(w)
+    return r
+
+
+def _ctype(t):
     t = t.strip()
     t = re.sub(r'\bclass\s+', '', t)
     t = strip_ns(t)
@@ -181,7 +194,7 @@ def ctype(t):
         raise LowerError('type outside the lowering subset: ' + t)
     if t.endswith('&'):
         base = t[:-1].strip()
-        return ctype(base) + ' *'
+        return _ctype(base) + ' *'
     return t
 
 
@@ -343,6 +356,9 @@ class Lowerer:
         self.fn_docs = {}
         self.globals_needed = set()
         self.globals_soft = set()
+        self.complete = None    # set of class names with a struct definition in the unit (None: assume all)
+        self.calls = {}         # lowered callee name -> (ret ctype, [param ctypes])
+        self.calls_by_fn = {}   # lowered function name -> set of callee names
         self.dropped = []       # (function, what)
         self.edit_log = {}      # function -> {rule: count}
         self.opaque = set()
@@ -539,6 +555,17 @@ class Lowerer:
                 raise LowerError('%s: receiver type outside subset: %s' % (qual, qt))
             return re.sub(r'^(class|struct)\s+', '', qt)
 
+        def rec_call(cal, ret_t, param_ts):
+            try:
+                sig = (ctype(ret_t), [ctype(p_) for p_ in param_ts])
+            except LowerError:
+                sig = None
+            self.calls.setdefault(cal, sig)
+            self.calls_by_fn.setdefault(name, set()).add(cal)
+
+        def argt(a):
+            return a['type']['qualType']
+
         def need_nomacro(n, what):
             r = rng(n)
             if r is None or r[2]:
@@ -581,6 +608,9 @@ class Lowerer:
                 return
             if k == 'MemberExpr':
                 b = n['inner'][0]
+                if b.get('kind') == 'ImplicitCastExpr' and b.get('castKind') in ('DerivedToBase', 'UncheckedDerivedToBase') \
+                        and 'bound member' not in n['type']['qualType']:
+                    b['_skipcast'] = True   # base-class fields are flattened into the derived struct: d->field is valid C
                 bb = base_strip(b)
                 bound = 'bound member' in n['type']['qualType']
                 if bb.get('kind') == 'CXXThisExpr' and bb.get('implicit') and not bound:
@@ -588,7 +618,7 @@ class Lowerer:
                     ed.insert(s, 'this->')
                     note('implicit-this')
                     return
-            if k == 'ImplicitCastExpr' and n.get('castKind') in ('DerivedToBase', 'UncheckedDerivedToBase'):
+            if k == 'ImplicitCastExpr' and n.get('castKind') in ('DerivedToBase', 'UncheckedDerivedToBase') and not n.get('_skipcast'):
                 inner0 = base_strip(n['inner'][0])
                 if inner0.get('kind') != 'CXXThisExpr' and r is not None and not r[2] \
                         and n['type']['qualType'].strip().endswith('*'):
@@ -634,6 +664,7 @@ class Lowerer:
                         ed.add(cs, po + 1, [lname + '(&(', (rs, re_), ')' + argsep])
                     walk(base, n)
                 note('member-call')
+                rec_call(lname, n['type']['qualType'], [kl + ' *'] + [argt(a) for a in args if a.get('kind') != 'CXXDefaultArgExpr'])
                 for a in args:
                     if a.get('kind') == 'CXXDefaultArgExpr':
                         raise LowerError('%s: default argument in call of %s' % (qual, mname))
@@ -672,6 +703,9 @@ class Lowerer:
                         if new != t:
                             ed.add(s, e, new)
                             note('call-rename')
+                        if rk == 'CXXMethodDecl' or rd.get('name') not in LIBC_NAMES:
+                            _r, _ps = split_params(fty) if fty else (n['type']['qualType'], [argt(a) for a in n['inner'][1:]])
+                            rec_call(new, _r, _ps)
                         # by-reference parameters of lowered callees: pass the address
                         _, ps = split_params(fty) if fty else (None, [])
                         for a, pt in zip(n['inner'][1:], ps):
@@ -717,16 +751,26 @@ class Lowerer:
                 if ce is not None and ce.get('kind') == 'CXXConstructExpr':
                     cname_ = self.method_name(kl, kl, ce['ctorType']['qualType'], 'CXXConstructorDecl')
                     args = ce.get('inner', [])
-                    parts = ['%s((%s*)cxx_new(sizeof(%s))' % (cname_, kl, kl)]
+                    incomplete = self.complete is not None and kl not in self.complete
+                    if incomplete:
+                        # the class is not declared in this unit: allocation+construction as one (contract-only) function
+                        cname_ = cname_.replace('__ctor', '__new', 1)
+                        parts = ['%s(' % cname_]
+                    else:
+                        parts = ['%s((%s*)cxx_new(sizeof(%s))' % (cname_, kl, kl)]
+                    first = incomplete
                     for a in args:
                         if a.get('kind') == 'CXXDefaultArgExpr':
                             raise LowerError('%s: default argument in constructor of %s' % (qual, kl))
                         ar = rng(a)
-                        parts.append(', ')
+                        if not first:
+                            parts.append(', ')
+                        first = False
                         parts.append((ar[0], ar[1]))
                     parts.append(')')
                     ed.add(s, e, parts)
                     note('new-object')
+                    rec_call(cname_, kl + ' *', ([] if incomplete else [kl + ' *']) + split_params(ce['ctorType']['qualType'])[1])
                     for a in args:
                         walk(a, n)
                     return
@@ -751,6 +795,7 @@ class Lowerer:
                         ed.add(s, e, ['cxx_delete(', (as_, ae), ')'])
                     else:
                         ed.add(s, e, ['%s__delete(' % kl, (as_, ae), ')'])
+                        rec_call('%s__delete' % kl, 'void', [kl + ' *'])
                     note('delete-object')
                 walk(a, n)
                 return
@@ -934,6 +979,7 @@ class Lowerer:
 
 
 OVERLOADED_FREE = {'Reallocate'}
+LIBC_NAMES = set('strlen strcmp strncmp strcpy strncpy memcpy memcmp memset memmove malloc free calloc realloc exit abort sqrt log pow ceil floor printf fprintf sprintf snprintf assert qsort'.split())
 
 
 # ---------------------------------------------------------------- macros / globals from the real headers
